@@ -29,12 +29,16 @@ EXPLANATION = (
     "republish run on is always the result of the repairer's own ServermapUpdater(..).update() in a mode for which "
     "ServermapUpdater.update queries the full permuted server list (MODE_REPAIR / MODE_CHECK): _got_full_servermap has "
     "no other caller or reference, nothing between update() and it replaces the map, MutableFileNode.repair goes "
-    "through Repairer.start, and MutableChecker.check maps in an all-servers mode as well. "
+    "through Repairer.start, and MutableChecker.check maps in an all-servers mode as well - for MutableChecker itself and "
+    "for every subclass that inherits check() (the mode expression is folded per class). "
     "Undecided: post-repair share counts / placement, an unrecoverable version with the same seqnum as the best one, "
     "the completion policy of the mapupdate after the initial queries were sent (that every queried server is waited for). "
-    "Reported, not enforced: MutableCheckAndRepairer checks in MODE_WRITE (bounded search, to fetch the privkey), so the "
-    "pre-repair verdict of check_and_repair can call a file healthy while another version sits on servers beyond the search "
-    "boundary; clause (8) enforces the all-servers mode for the plain checker and for the repair's own mapupdate only.")
+    "FINDING (C14.8, construct allmydata.mutable.checker:MutableCheckAndRepairer): SERVERMAP_MODE = MODE_WRITE is a bounded "
+    "search (N+k initial servers, stops after k empty servers past the last share), so check_and_repair() reports 'Healthy' "
+    "in its pre- and post-repair results, and starts no repair, while another - even a newer, even a recoverable - version "
+    "sits on servers beyond the boundary; the plain check() of the same grid reports 'Unhealthy'. 'Healthy exactly when .. no "
+    "other versions' is therefore violated for the check-and-repair verdict. Repair: SERVERMAP_MODE = MODE_REPAIR (all "
+    "servers, privkey fetched).")
 TECHNIQUE = "static analysis: CFG x abstract-state monitor (constant propagation over branch facts), must-precede gates, Deferred chain order, who-may-call"
 
 CHK = "mutable.checker:MutableChecker"
@@ -132,6 +136,15 @@ def _uses_everywhere(idx, tail, module_prefix=None):
                 seen.add(id(n))
                 res.append((f, n, hit))
     return res
+
+
+def _mro_attr(ci, e):
+    """the class-level definitions `NAME = expr` that ``self.NAME`` / ``cls.NAME`` (the expression `e`) denotes for class `ci`."""
+    if isinstance(e, ast.Attribute) and isinstance(e.value, ast.Name):
+        for c in ci.mro():
+            if e.attr in c.attrs:
+                return list(c.attrs[e.attr])
+    return []
 
 
 GFS = "_got_full_servermap"
@@ -1343,9 +1356,17 @@ def run(ctx: Context):
                     r.violation(chk, chk.loc(c), "MutableChecker.check updates its servermap in %s, which does not query every server: a file "
                                 "is reported healthy although another version sits on servers beyond the search boundary" % mval)
                 else:
-                    # reported, not enforced: see the final note in EXPLANATION (check-and-repair searches in MODE_WRITE by design)
-                    ctx.note("C14.8: %s.check updates its servermap in %s (bounded search): its pre-repair verdict can miss versions on far "
-                             "servers; the repair itself re-maps in an all-servers mode" % (ci.name, mval))
+                    # the subclass inherits check() and with it the verdict: its health report (for check-and-repair the pre-repair
+                    # results, and the post-repair results when no repair is started) is as much a "reported healthy" as the plain one.
+                    # The construct is the CLASS whose SERVERMAP_MODE selects the bounded search, so that the key stays apart from
+                    # the one of the plain checker.
+                    an = [x for x in _mro_attr(ci, m) if x is not None]
+                    ln = an[0].lineno if an else ci.node.lineno
+                    r.violation(ci.qual, "%s:%s" % (ci.module.relpath, ln),
+                                "%s inherits MutableChecker.check and updates its servermap in %s, which does not query every server "
+                                "(bounded search): it reports a file healthy, and starts no repair, although another version - even a "
+                                "newer one - sits on servers beyond the search boundary, where the plain check reports it unhealthy" % (
+                                    ci.name, mval))
         # MutableFileNode.repair -> Repairer(..).start(force)
         nr = idx.func(NODE + ".repair")
         nrn = FlowNorm(nr)
